@@ -2,11 +2,14 @@
    types_for_custom_json_translation accumulate; the header (imports, TypeVar lines, helper
    functions) is written afterwards from what accumulated.  The accumulators only grow; every
    formatter and writer inserts the import at the place where it prints the name.
-   PARTIAL (see c12_py_file_partial): proved for every name of the fixed typing / pydantic / enum /
-   datetime vocabulary spelled in a type at any depth or in the template text of a declaration, and
-   for the TypeVars of class headers; NOT yet proved: that the (de)serialiser function names of an
-   Annotated field are defined, and the header's own uses (TypeVar, datetime inside the helper
-   functions). *)
+   c12_py_file: the WHOLE file (header + body) outside the two recorded classes.  Shape of the proof:
+   a preorder c12_ple on py_state (accumulators grow; a type variable enters only with the TypeVar
+   import; the text `datetime` enters the translation set only next to the datetime import); every
+   writer w satisfies  w x s = Ok (y, s') -> c12_ple s s' /\ Q y s' /\ R x s'  where Q says that the
+   names the OUTPUT y uses are provided at s' and R says what writing the INPUT x left in s'
+   (TypeVars declared, texts registered: the spec's readers c12_py_custom / c12_py_registers); Q and
+   R survive later steps; the header is printed from the final state.  c12_py_file_partial (the
+   body without class hypothesis) is kept. *)
 From Coq Require Import List Bool Permutation.
 From TS Require Import Model.Str Model.Outcome Model.Unicode Model.Types Model.Parse Model.TopsortAlgo Model.Topsort
                        Model.Lang.Common Model.Lang.Decl Model.Lang.Python Spec.C12Spec.
